@@ -149,7 +149,7 @@ def main(argv):
         harnesses += [h for h in kplan.get("thorough", []) if h not in harnesses]
     hinfo = PLAN.get("_harness_info", {})
     scratch = None
-    need_scratch = bool(harnesses) or bool(vfail_units)
+    need_scratch = bool(harnesses) or bool(vfail_units) or bool(plan.get("native"))
     try:
         if need_scratch:
             try:
@@ -222,6 +222,25 @@ def main(argv):
                     else:
                         rp = write_replay(prop, h, f"failed obligation: kani/{h}\nfailed checks: {failed_txt}\nno concrete counterexample could be replayed ({verdict})\n\n" + r["raw"][-4000:])
                         violations.append({"obligation": f"kani/{h}", "replay": rp, "note": "no-failing-input-found"})
+
+        # ---- native bounded stand-ins (exhaustive execution of the real code up to a stated bound; never counted as proof)
+        for nb in plan.get("native", []):
+            if scratch is None:
+                break
+            tout = os.path.join(REPLAYS, f"{prop}-{nb['name']}-{now_tag()}.txt")
+            os.makedirs(REPLAYS, exist_ok=True)
+            tn0 = time.time()
+            st, tlog = run_twin(scratch, nb["test"], tout)
+            m = re.search(r"TWIN-PASS[^\n]*", tlog)
+            bounded.append({"native_test": nb["test"], "bound": nb["bound"], "result": st, "time_s": round(time.time() - tn0, 1),
+                            "summary": m.group(0) if m else None})
+            if st == "fails":
+                violations.append({"obligation": f"native/{nb['name']} (bounded)", "replay": tout, "note": "failing input found by bounded native check"})
+            else:
+                if os.path.exists(tout):
+                    os.remove(tout)
+                if st != "passes":
+                    undecided.append(f"native/{nb['name']}: could not be run: " + tlog[-600:])
 
         # ---- Verus failures: bounded twin looks for a failing input on the real code
         for unit, pr, text in vfail_units:
